@@ -1,52 +1,40 @@
 /-
-C01 — the iterator returned by `insert` refers to the inserted entry (or, for a rejected insert into a
-unique-key container, to the equivalent entry): its rank is the lower bound of the key.
+C01 — the iterator returned by `insert` refers to an entry (it can be dereferenced: `operator[]`),
+and the fold of `insert` over a range.
 -/
-import TlxVerif.Model.C01Tree
-import TlxVerif.Proofs.C01Query
-import TlxVerif.Proofs.C01Main
+import TlxVerif.Proofs.C01InsPos
+import TlxVerif.Proofs.C01Iter
 namespace TlxVerif.C01
 
 variable {K V : Type}
 
-def optChain (h : Nat) : Option (K × BNode K V) → List (List (K × V))
-  | none => []
-  | some (_, s) => chain h s
+theorem validPos_embed (A X B : List (List (K × V))) (j s : Nat) (hv : ValidPos X (j, s)) :
+    ValidPos (A ++ (X ++ B)) (A.length + j, s) := by
+  obtain ⟨leaf, hl, hs⟩ := hv
+  simp only at hl hs
+  have hj := (List.getElem?_eq_some_iff.mp hl).1
+  refine ⟨leaf, ?_, hs⟩
+  simp only
+  rw [List.getElem?_append_right (by omega), Nat.add_sub_cancel_left, List.getElem?_append_left hj]
+  exact hl
 
-theorem chain_inner_of (h : Nat) (n : BNode K V) (hn : n.isLeaf = false) :
-    chain (h + 1) n = (kidsOf n).flatMap (chain h) := by
-  cases n with
-  | leaf es => simp [BNode.isLeaf] at hn
-  | inner l ks kids => simp [chain, kidsOf]
-
-theorem optChain_inner_of (h : Nat) (s : Option (K × BNode K V))
-    (hs : ∀ sk sn, s = some (sk, sn) → sn.isLeaf = false) :
-    optChain (h + 1) s = (optKids s).flatMap (chain h) := by
-  cases s with
-  | none => rfl
-  | some kv =>
-    obtain ⟨sk, sn⟩ := kv
-    simp only [optChain, optKids]
-    exact chain_inner_of h sn (hs sk sn rfl)
-
-theorem rankOf_append_left (A X : List (List (K × V))) (j s : Nat) :
-    rankOf (A ++ X) (some (A.length + j, s)) = A.flatten.length + rankOf X (some (j, s)) := by
-  simp only [rankOf_eq, List.take_length_add_append, List.flatten_append, List.length_append]
-  omega
-
-theorem rankOf_append_right (B C : List (List (K × V))) (j s : Nat) (hj : j ≤ B.length) :
-    rankOf (B ++ C) (some (j, s)) = rankOf B (some (j, s)) := by
-  simp only [rankOf_eq, List.take_append_of_le_length hj]
-
-theorem leafInsert_pos (p : Params K) (es : List (K × V)) (k : K) (v : V) (h : Nat) (r : InsOut K V)
+theorem leafInsert_valid (p : Params K) (es : List (K × V)) (k : K) (v : V) (h : Nat) (r : InsOut K V)
     (hlen : findLower p (keysOf es) k ≤ es.length)
     (hr : leafInsert p es k v = some r) :
-    r.leafIdx < (chain h r.node ++ optChain h r.split).length ∧
-    rankOf (chain h r.node ++ optChain h r.split) (some (r.leafIdx, r.slot)) = findLower p (keysOf es) k := by
+    ValidPos (chain h r.node ++ optChain h r.split) (r.leafIdx, r.slot) := by
   unfold leafInsert at hr
   simp only at hr
   split at hr
-  · cases hr; simp [chain, optChain, rankOf]
+  · rename_i hp
+    cases hr
+    have hpa : presentAt p es (findLower p (keysOf es) k) k = true := by
+      simp only [Bool.and_eq_true] at hp; exact hp.2
+    unfold presentAt at hpa
+    cases hg : es[findLower p (keysOf es) k]? with
+    | none => rw [hg] at hpa; cases hpa
+    | some e =>
+      have := (List.getElem?_eq_some_iff.mp hg).1
+      exact ⟨es, by simp [chain, optChain], this⟩
   · split at hr
     · unfold splitLeafInsert at hr
       simp only at hr
@@ -55,19 +43,20 @@ theorem leafInsert_pos (p : Params K) (es : List (K × V)) (k : K) (v : V) (h : 
       · split at hr
         · rename_i hge
           cases hr
-          simp only [chain, optChain, List.singleton_append, List.length_cons, List.length_nil, rankOf_eq]
-          refine ⟨by omega, ?_⟩
-          simp [List.length_take]; omega
-        · cases hr
-          simp [chain, optChain, rankOf]
-    · cases hr; simp [chain, optChain, rankOf]
+          refine ⟨insertAt (es.drop (es.length / 2)) (findLower p (keysOf es) k - es.length / 2) (k, v), by simp [chain, optChain], ?_⟩
+          simp only [length_insertAt, List.length_drop]; omega
+        · rename_i hlt
+          cases hr
+          refine ⟨insertAt (es.take (es.length / 2)) (findLower p (keysOf es) k) (k, v), by simp [chain, optChain], ?_⟩
+          simp only [length_insertAt, List.length_take]; omega
+    · cases hr
+      exact ⟨insertAt es (findLower p (keysOf es) k) (k, v), by simp [chain, optChain], by simp only [length_insertAt]; omega⟩
 
-/-- the iterator returned by `insert_descend` sits at the rank where the entry was put -/
-theorem insertDescend_pos (p : Params K) (k : K) (v : V) :
+/-- the iterator returned by `insert_descend` refers to an entry -/
+theorem insertDescend_valid (p : Params K) (k : K) (v : V) :
     ∀ (h : Nat) (n : BNode K V) (ml mi : Nat), ShapeTop p ml mi h n →
       ∀ r, insertDescend p k v h n = some r →
-        r.leafIdx < (chain h r.node ++ optChain h r.split).length ∧
-        rankOf (chain h r.node ++ optChain h r.split) (some (r.leafIdx, r.slot)) = insRank p k h n := by
+        ValidPos (chain h r.node ++ optChain h r.split) (r.leafIdx, r.slot) := by
   intro h
   induction h with
   | zero =>
@@ -76,8 +65,7 @@ theorem insertDescend_pos (p : Params K) (k : K) (v : V) :
     | inner l keys kids => simp [ShapeTop] at hs
     | leaf es =>
       unfold insertDescend at hr
-      have := leafInsert_pos p es k v 0 r (by simpa [keysOf] using findLower_le p (keysOf es) k) hr
-      simpa [insRank] using this
+      exact leafInsert_valid p es k v 0 r (by simpa [keysOf] using findLower_le p (keysOf es) k) hr
   | succ h ih =>
     intro n ml mi hs r hr
     cases n with
@@ -87,25 +75,23 @@ theorem insertDescend_pos (p : Params K) (k : K) (v : V) :
       obtain ⟨hl, hk, hmin, hmax, hkids⟩ := hs
       unfold insertDescend at hr
       simp only at hr
-      simp only [insRank]
       have hslot := findLower_le p keys k
       generalize findLower p keys k = slot at hr hslot
       have hlt : slot < kids.length := by omega
-      rw [List.getElem?_eq_getElem hlt] at hr ⊢
-      simp only at hr ⊢
+      rw [List.getElem?_eq_getElem hlt] at hr
+      simp only at hr
       cases hrec : insertDescend p k v h kids[slot] with
       | none => rw [hrec] at hr; cases hr
       | some r' =>
         rw [hrec] at hr
         simp only at hr
-        obtain ⟨ih1, ih2⟩ := ih kids[slot] _ _ (hkids _ (List.getElem_mem hlt)).top r' hrec
+        have ih1 := ih kids[slot] _ _ (hkids _ (List.getElem_mem hlt)).top r' hrec
         have hpre : ((kids.take slot).map (leafCount h)).sum = ((kids.take slot).flatMap (chain h)).length := by
           rw [List.length_flatMap]
           congr 1
           apply List.map_congr_left
           intro c _
           exact leafCount_eq_chain_length h c
-        -- the new chain is CA ++ (child's new chain) ++ CB
         have key : chain (h + 1) r.node ++ optChain (h + 1) r.split =
             (kids.take slot).flatMap (chain h) ++
               ((chain h r'.node ++ optChain h r'.split) ++ (kids.drop (slot + 1)).flatMap (chain h)) ∧
@@ -136,14 +122,12 @@ theorem insertDescend_pos (p : Params K) (k : K) (v : V) :
               exact ⟨trivial, by rw [hpre], trivial⟩
         obtain ⟨k1, k2, k3⟩ := key
         rw [k1, k2, k3]
-        refine ⟨by simp only [List.length_append] at ih1 ⊢; omega, ?_⟩
-        rw [rankOf_append_left, rankOf_append_right _ _ _ _ (by omega), ih2, flatMap_chain_flatten]
+        exact validPos_embed _ _ _ _ _ ih1
 
-/-- **the position returned by `insert`** has the rank of the lower bound of the key in the old entry
-sequence — where the new entry now is (or where the equivalent entry that blocked the insertion is) -/
-theorem insert_pos (p : Params K) (pv : p.Valid) (sw : StrictWeak p.lt) (t : Tree K V) (ht : TreeInv p t)
+/-- **the iterator returned by `insert`** refers to an entry of the new tree -/
+theorem insert_valid (p : Params K) (pv : p.Valid) (t : Tree K V) (ht : TreeInv p t)
     (k : K) (v : V) (res : InsResult K V) (hres : insert p t k v = some res) :
-    rankOf res.tree.leafChain (some res.pos) = lbIdx p.lt k t.toList := by
+    ValidPos res.tree.leafChain res.pos := by
   obtain ⟨hshape, hsort, hsep⟩ := ht
   unfold insert at hres
   cases hroot : t.root with
@@ -154,23 +138,20 @@ theorem insert_pos (p : Params K) (pv : p.Valid) (sw : StrictWeak p.lt) (t : Tre
     rw [leafInsert_nil p pv] at hres
     simp only at hres
     cases hres
-    simp [Tree.leafChain, Tree.toList, hroot, chain, BNode.level, rankOf, lbIdx]
+    exact ⟨[(k, v)], by simp [Tree.leafChain, chain, BNode.level], by simp⟩
   | some r0 =>
-    rw [hroot] at hres hsep
-    simp only at hres hsep
+    rw [hroot] at hres
+    simp only at hres
     unfold TreeShape at hshape
     rw [hroot] at hshape
     obtain ⟨hs, _, _, _⟩ := hshape
-    have htl : t.toList = flatten r0.level r0 := by simp [Tree.toList, hroot]
-    rw [htl] at hsort ⊢
     generalize r0.level = h0 at *
     cases hr : insertDescend p k v h0 r0 with
     | none => rw [hr] at hres; cases hres
     | some r =>
       rw [hr] at hres
       simp only at hres
-      obtain ⟨_, hpos⟩ := insertDescend_pos p k v h0 r0 1 1 hs r hr
-      rw [insRank_eq_lbIdx p sw k h0 r0 1 1 hs hsort hsep] at hpos
+      have hpos := insertDescend_valid p k v h0 r0 1 1 hs r hr
       have hshp := insertDescend_shape p pv k v h0 r0 1 1 (by have := pv.leaf4; simp [Params.leafMin, Gen.leafSlotmin]; omega)
         (by have := pv.inner4; simp [Params.innerMin, Gen.innerSlotmin]; omega) hs r hr
       cases hsp : r.split with
